@@ -47,6 +47,13 @@ def compile_script(ops):
             idx[name] = nxt; kinds[name] = kind; nxt += 1
             sops.append("SEv (Accept %s %s)" % ("Admin" if kind == "admin" else "Normal", "SessMode" if mode == "sess" else "TxnMode"))
             sops.append("SEv (AuthDone %d %s)" % (idx[name], "true" if ok else "false"))
+        elif k == "connect_uncounted":
+            # answered (ReadyForQuery) but the task has not sent its +1 yet (model: no Enter)
+            idx[op[1]] = nxt; kinds[op[1]] = "normal"; nxt += 1
+            sops.append("SEv (Accept Normal TxnMode)")
+            sops.append("SLate (AuthDone %d true)" % idx[op[1]])
+        elif k == "sig_uncounted":
+            sops.append("SLate Sigint")
         elif k == "accept_late":
             idx[op[1]] = nxt; kinds[op[1]] = "normal"; nxt += 1
             sops.append("SEv (Accept Normal TxnMode)")
@@ -750,6 +757,9 @@ class Binary:
             self.logf.close()
         except Exception:
             pass
+        if not os.environ.get("C17_KEEP"):
+            import shutil
+            shutil.rmtree(self.dir, ignore_errors=True)
         return ev
 
     def wait_exit(self, timeout):
@@ -938,6 +948,10 @@ def run_binary_script(mockd, name, ops, trace):
 def race_defs():
     c = lambda n: ["connect", n, "normal", "txn", True]
     return {
+        # SIGINT right after a client got its ReadyForQuery: counted in time (kicked), or not yet counted: the
+        # process exits under it at once (known defect E1, theorem c17_exit_before_counted_refuted)
+        "login-vs-int": {"alts": {"counted-then-kicked": [c("c0"), ["sig", "int"]],
+                                  "E1-exit-before-counted": [["connect_uncounted", "c0"], ["sig_uncounted", "int"]]}},
         # an idle client's BEGIN and SIGINT at the same instant: kicked at once, or that one transaction is served first
         "begin-vs-int": {"alts": {"kicked-first": [c("c0"), ["sig", "int"]],
                                   "txn-first": [c("c0"), ["begin", "c0"], ["sig", "int"], ["commit", "c0"]]}},
@@ -966,8 +980,13 @@ def race_binary(mockd, name, order, i):
             if any(f["t"] == "Z" for f in frames) and not any(f["t"] == "E" for f in frames):
                 per.setdefault(n, []).append("admitted" if lab == "startup" else "served")
         sigint = lambda: os.kill(B.proc.pid, signal.SIGINT)
-        if name == "begin-vs-int":
+        if name == "login-vs-int":
             c0 = PgClient(B.port); fr, _ = c0.login({"user": "u", "database": "db"}, "pw"); tok("c0", fr, "startup")
+            sigint()
+            fr, out = c0.read("E", 2.0); tok("c0", fr, "probe")
+        elif name == "begin-vs-int":
+            c0 = PgClient(B.port); fr, _ = c0.login({"user": "u", "database": "db"}, "pw"); tok("c0", fr, "startup")
+            time.sleep(0.05)        # let the client task send its +1 (the window of E1 is raced separately)
             q = PgClient.msg(b"Q", b"BEGIN\0")
             if order == 0:
                 c0.send(q); sigint()
@@ -983,6 +1002,7 @@ def race_binary(mockd, name, order, i):
                 fr, out = c0.read("E", 2.0); tok("c0", fr, "probe")
         elif name == "commit-vs-int":
             c0 = PgClient(B.port); fr, _ = c0.login({"user": "u", "database": "db"}, "pw"); tok("c0", fr, "startup")
+            time.sleep(0.05)
             fr, _ = c0.query("BEGIN"); tok("c0", fr, "stmt")
             q = PgClient.msg(b"Q", b"COMMIT\0")
             if order == 0:
@@ -993,6 +1013,7 @@ def race_binary(mockd, name, order, i):
             fr, out = c0.read("E", 2.0); tok("c0", fr, "probe")
         elif name == "connect-vs-int":
             k = PgClient(B.port); fr, _ = k.login({"user": "u", "database": "db"}, "pw"); tok("k", fr, "startup")
+            time.sleep(0.05)
             fr, _ = k.query("BEGIN"); tok("k", fr, "stmt")
             if order == 0:
                 c0 = PgClient(B.port); sigint()
@@ -1004,7 +1025,14 @@ def race_binary(mockd, name, order, i):
             fr, _ = k.query("COMMIT"); tok("k", fr, "stmt")
             fr, out = k.read("E", 2.0); tok("k", fr, "probe")
         exited = B.wait_exit(3.0)
-        return {"per": per, "exited": exited, "rc": B.proc.returncode}
+        silent = None
+        if not exited:
+            try:
+                a = PgClient(B.port); fr, _ = a.login({"user": "admin", "database": "pgcat"}, "adminpw", 1.0); a.close()
+                silent = not fr
+            except OSError:
+                silent = None
+        return {"per": per, "exited": exited, "rc": B.proc.returncode, "loop_silent": silent}
     except OSError as ex:
         return {"per": per, "oserror": str(ex), "exited": B.proc.poll() is not None}
     finally:
@@ -1037,6 +1065,15 @@ def check_races(run, mockd, reps):
         match = [an for an, (per, cause) in allowed.get(rn, {}).items() if per == o["per"]]
         key = "%s/%s%s" % (rn, match[0] if match else "UNEXPECTED", "(error frame lost to a TCP reset)" if reset else "")
         hist[key] = hist.get(key, 0) + 1
+        if match and not o.get("exited") and o.get("loop_silent"):
+            # every client is gone, the process neither exits nor serves: the known exit-channel deadlock, if the
+            # adversarial schedule of the matched linearisation wedges in the model
+            ops_m = defs[rn]["alts"][match[0]]
+            (adv,) = eval_scripts([("adv", ops_m)], adv=True)
+            if adv is not None and adv[-1]["wedged"]:
+                hist[key] -= 1
+                hist[key + "+WEDGED"] = hist.get(key + "+WEDGED", 0) + 1
+                continue
         if not match or not o.get("exited") or o.get("rc") != 0:
             run.violation("counterexample" if match else "tie-broken",
                           "race %s (order %d): observed %s exited=%s rc=%s; the model allows %s" % (rn, order, o["per"], o.get("exited"), o.get("rc"), {a: p for a, (p, _) in allowed.get(rn, {}).items()}),
@@ -1047,7 +1084,7 @@ def check_races(run, mockd, reps):
 
 
 # ----------------------------------------------------------------------------- the wedge (defect) hunt
-def wedge_attempt(mockd, i, flood_tasks=6, flood_ms=700):
+def wedge_attempt(mockd, i, flood_tasks=6, flood_ms=700, pre=0.25):
     """nobody connected, a burst of bogus CancelRequests (each is +1, -1 on the drain channel), SIGINT in the
     middle: model schedule W2.  Wedged = the process neither exits by itself (total_clients is 0) nor at
     shutdown_timeout, nor on SIGTERM."""
@@ -1056,7 +1093,7 @@ def wedge_attempt(mockd, i, flood_tasks=6, flood_ms=700):
         B.finish(); return {"error": B.err}
     try:
         B.mock.stdin.write((json.dumps({"op": "flood", "port": B.port, "tasks": flood_tasks, "ms": flood_ms}) + "\n").encode()); B.mock.stdin.flush()
-        time.sleep(0.25)
+        time.sleep(pre)
         os.kill(B.proc.pid, signal.SIGINT)
         exited = B.wait_exit(4.0)          # 0 clients: immediate; the timer: 1 s
         res = {"exited": exited}
@@ -1210,6 +1247,13 @@ def check(run):
     evals += nrace
     run.cov["race_outcomes"] = hist
     run.log("races: %d runs, outcomes %s" % (nrace, hist))
+    wr = sum(v for k, v in hist.items() if k.endswith("+WEDGED"))
+    if wr:
+        run.known_finding("exit-channel deadlock hit in %d race run(s) on the binary (all clients gone, process neither exits nor accepts)" % wr, key="F-C17-wedge-seen-race")
+    e1 = sum(v for k, v in hist.items() if "E1-" in k)
+    if e1:
+        run.known_finding("the process exited at once under a client that had just been told it is connected (SIGINT between its ReadyForQuery and its task's drain.send(1)): %d of %d login-vs-int races on the binary; model: c17_exit_before_counted_refuted" % (e1, sum(v for k, v in hist.items() if k.startswith("login-vs-int"))), key="F-C17-exit-before-counted-seen")
+    run.known_finding("client.rs: a client is counted (drain.send(1)) only AFTER it has been answered (ReadyForQuery); a SIGINT handled in between finds total_clients == 0 and the process exits immediately under the client (theorem c17_exit_before_counted_refuted, example ex_exit_before_counted)", key="F-C17-exit-before-counted")
 
     # (c) known defects, re-confirmed on the binary
     zt = zero_timeout_probe(bins["mockd"])
@@ -1219,7 +1263,7 @@ def check(run):
     n_hunt = 0 if quick else 60
     if n_hunt:
         with ThreadPoolExecutor(max_workers=4) as ex:
-            hunts = list(ex.map(lambda i: wedge_attempt(bins["mockd"], i, flood_tasks=(6 if i % 2 == 0 else 48)), range(n_hunt)))
+            hunts = list(ex.map(lambda i: wedge_attempt(bins["mockd"], i, flood_tasks=(6 if i % 2 == 0 else 64), pre=(0.25 if i % 2 == 0 else 0.15)), range(n_hunt)))
         wedged = [h for h in hunts if h.get("exited") is False]
         run.cov["wedge_hunt"] = {"attempts": n_hunt, "wedged": len(wedged), "sample": wedged[:1]}
         if wedged:
